@@ -61,7 +61,7 @@ end
 def templates(tier):
     import itertools
     out = []
-    depth = 1 if tier == "quick" else 2
+    depth = 1 if tier == "quick" else 3
     for en, e in ELEM.items():
         ty = e["ty"]
         # ---- lists: a concrete prefix of mutators (arguments symbolic), then one fully symbolic operation
